@@ -875,9 +875,6 @@ func (ctx *RenderContext) evaluateNode(node Node) (interface{}, error) {
 		if value, err := ctx.GetVariable(n.name); err != nil || value != nil || ctx.hasVariable(n.name) {
 			return value, err
 		}
-		if macro, ok := ctx.GetMacro(n.name); ok {
-			return macro, nil
-		}
 		return nil, nil
 
 	case *GetAttrNode:
